@@ -19,7 +19,7 @@ func init() {
 			"deferred (so it also runs when the action panics); (protection-transitions) access passes Protect(ReadOnly) on the 0→1 edge before incrementing, release passes Protect(NoAccess) on the →0 edge, every successful " +
 			"creation ends with Protect(NoAccess), newSecret passes Alloc then Lock; (close-waits-and-orders) Close sets closing first, destroys only under accessCounter == 0 with the lock held, otherwise waits on the condition " +
 			"variable; every decrement is followed by Broadcast; close() is ordered Protect(ReadWrite) → wipe → Unlock → Free → closed=true; access refuses closing/closed secrets before touching protection; " +
-			"(core-dumps) protectedmemory imports memguard/core (whose init disables core dumps). Kernel page state and interleavings are not decided.",
+			"(core-dumps) protectedmemory imports memguard/core (whose init disables core dumps); (flags-monotonic) closing/closed only ever become true; (lock-balanced) rw is paired (Lock/Unlock, RLock/RUnlock) and balanced on every path of both back ends. Kernel page state and interleavings are not decided.",
 		NotDecided:  []string{"what the kernel's page tables say (mlock/PROT_* as observed in smaps)", "reader/closer interleavings at run time", "memguard and memcall internals", "that readers see the original bytes (value-level)"},
 		Assumptions: []string{"memcall.Interface methods perform the named syscalls", "memguard/core's init calls DisableCoreDumps (as its documentation and the source comment in protectedmemory state)", "sync.Cond.Wait keeps the lock held on return"},
 		Tech:        "static analysis: lock-state dataflow, must-pass-through and ordering (dominance) rules on SSA, applied to both SecretFactory back ends",
